@@ -43,6 +43,15 @@ def synthetic(rng, rows, sensors, regimes=2, scale=1.0):
 
 
 # ------------------------------------------------------------------ C02 / C03
+def _balance_rho(rho, residual_primal, tolerance_primal, residual_dual, tolerance_dual):
+    """residual balancing (Boyd et al. 3.4.1): the usual adaptive-rho rule a caller would plug in"""
+    if residual_primal > 10 * residual_dual:
+        return 2 * rho
+    if residual_dual > 10 * residual_primal:
+        return rho / 2
+    return rho
+
+
 def admm(tier, seed):
     from fast_ticc import admm as A
     from fast_ticc.admm import solver
@@ -67,7 +76,8 @@ def admm(tier, seed):
             S = spd(rng, nw, 0.25, 4.0)
             lam = float(rng.choice([0.0, 1e-3, 0.11, 0.5, 1.0]))
             calls['n'], calls['stopped'] = 0, False
-            th = mc.reinflate_matrix(A.admm_optimize_theta(S, lam, w, n).theta)
+            adaptive = (i % 3 == 2)         # every third case runs with an adaptive-rho callback
+            th = mc.reinflate_matrix(A.admm_optimize_theta(S, lam, w, n, rho_update=_balance_rho if adaptive else None).theta)
             cases += 1
             iters = calls['n'] + 1
             max_iter_seen = max(max_iter_seen, iters)
@@ -108,7 +118,7 @@ def admm(tier, seed):
                         what = 'C02 objective decreases along a block-Toeplitz perturbation (not a minimiser within tolerance)'
                         break
             if what:
-                fails.append(dict(what='admm:' + what.split(' (')[0], detail=what, input=dict(seed=seed, case=i, W=w, N=n, lam=lam)))
+                fails.append(dict(what='admm:' + what.split(' (')[0], detail=what, input=dict(seed=seed, case=i, W=w, N=n, lam=lam, adaptive_rho=adaptive)))
         # scale sweep for C03: variances 1e-12 .. 1e12
         scale_fail = []
         for p in ([-12, -6, 0, 6, 9, 12] if tier == 'quick' else range(-12, 13, 2)):
@@ -129,7 +139,7 @@ def admm(tier, seed):
     finally:
         solver.check_convergence = orig
     return dict(kind='bounded', name='admm', cases=cases, failing=fails, max_iterations_seen=max_iter_seen,
-                bound='%d random SPD covariances with eigenvalues in [0.25,4], NW<=%d, lambda in {0,1e-3,0.11,0.5,1}; scale sweep 1e-12..1e12 on 2x2'
+                bound='%d random SPD covariances with eigenvalues in [0.25,4], NW<=%d, lambda in {0,1e-3,0.11,0.5,1}, every third case with a residual-balancing rho_update callback; scale sweep 1e-12..1e12 on 2x2'
                       % (n_cases, 9 if tier == 'quick' else 15))
 
 
